@@ -469,3 +469,108 @@ func OrdersIn(scan map[string][]byte, chainID uint64) []*lib.SellOrder {
 	}
 	return out
 }
+
+// ---- signers ------------------------------------------------------------------------------------------------------
+
+// Signer kinds beyond the four single-key kinds.
+const (
+	KindMulti = 4 // BLS t-of-n multisig account key
+	KindRLP   = 5 // legacy Ethereum-wrapped transaction (memo "RLP", eth key)
+	KindRLPV2 = 6 // nonce based Ethereum-wrapped transaction (memo "RLP.V2", eth key)
+)
+
+// SignerKindName is the evidence label of a signer kind.
+func SignerKindName(k int) string {
+	return [...]string{"bls", "ed25519", "secp256k1", "eth-secp256k1", "bls-multisig", "rlp", "rlp-v2"}[k]
+}
+
+// Signer is anything that can authorise a transaction.
+type Signer struct {
+	Kind      int
+	Key       int   // key index (single keys: keys.Kind(Kind,Key); RLP kinds: keys.Eth(Key))
+	Multi     Multi // KindMulti
+	Positions []int // KindMulti: which members sign
+	TxType    int   // RLP kinds: ethereum transaction type (see RLPSpec)
+	ABI       bool  // RLP kinds, send only
+}
+
+// Private returns the private key of a single-key or RLP signer.
+func (s Signer) Private() crypto.PrivateKeyI {
+	switch s.Kind {
+	case KindRLP, KindRLPV2:
+		return keys.Eth(s.Key)
+	case KindMulti:
+		return nil
+	}
+	return keys.Kind(s.Kind, s.Key)
+}
+
+// Address is the account address the signer controls.
+func (s Signer) Address() []byte {
+	if s.Kind == KindMulti {
+		return s.Multi.Address()
+	}
+	return Addr(s.Private())
+}
+
+// PublicKey is the serialized public key of the signer (multisig: with an empty bitmap).
+func (s Signer) PublicKey() []byte {
+	if s.Kind == KindMulti {
+		return s.Multi.Key().Bytes()
+	}
+	return s.Private().PublicKey().Bytes()
+}
+
+// String is a short readable label.
+func (s Signer) String() string {
+	switch s.Kind {
+	case KindMulti:
+		return fmt.Sprintf("multisig(%d-of-%v signed by %v)", s.Multi.Threshold, s.Multi.Members, s.Positions)
+	case KindRLP, KindRLPV2:
+		return fmt.Sprintf("%s(eth%d type%d abi=%v)", SignerKindName(s.Kind), s.Key, s.TxType, s.ABI)
+	}
+	return fmt.Sprintf("%s%d", SignerKindName(s.Kind), s.Key)
+}
+
+// TxOpts are the envelope fields of a transaction.
+type TxOpts struct {
+	NetworkID, ChainID uint64 // default: the chain's
+	Fee                uint64 // RLP kinds: becomes the gas limit (price is 1 uCNPY per gas), which also determines the pseudo timestamp
+	Created            uint64 // RLP: the ethereum nonce; RLP.V2: ignored (sentinel 1)
+	Nonce              uint64 // RLP.V2 only
+	Memo               string // ignored by the RLP kinds
+	Time               uint64 // default: c.Tick(); ignored by the RLP kinds
+}
+
+// Sign builds the canopy transaction bytes for msg authorised by s.
+func (c *Chain) Sign(s Signer, msg lib.MessageI, o TxOpts) ([]byte, *lib.Transaction, error) {
+	if o.NetworkID == 0 {
+		o.NetworkID = c.Cfg.NetworkID
+	}
+	if o.ChainID == 0 {
+		o.ChainID = c.Cfg.ChainId
+	}
+	switch s.Kind {
+	case KindRLP:
+		bz, tx, _, err := RLPTx(keys.Eth(s.Key), o.NetworkID, o.ChainID, msg, RLPSpec{Nonce: o.Created, Gas: o.Fee, TxType: s.TxType, ABI: s.ABI})
+		return bz, tx, err
+	case KindRLPV2:
+		bz, tx, _, err := RLPTx(keys.Eth(s.Key), o.NetworkID, o.ChainID, msg, RLPSpec{V2: true, Nonce: o.Nonce, Gas: o.Fee, TxType: s.TxType, ABI: s.ABI})
+		return bz, tx, err
+	}
+	if o.Time == 0 {
+		o.Time = c.Tick()
+	}
+	tx, err := UnsignedTx(msg, o.NetworkID, o.ChainID, o.Fee, o.Created, o.Time, o.Memo)
+	if err != nil {
+		return nil, nil, err
+	}
+	if s.Kind == KindMulti {
+		if err = SignMulti(tx, s.Multi, s.Positions); err != nil {
+			return nil, nil, err
+		}
+	} else if e := tx.Sign(s.Private()); e != nil {
+		return nil, nil, e
+	}
+	return MustMarshal(tx), tx, nil
+}
